@@ -237,9 +237,16 @@ func assignOne(destValue reflect.Value, taken any, to string) (reflect.Value, er
 	var (
 		toPaths           = splitFieldPath(to)
 		originalDestValue = destValue
-		parentMap         reflect.Value
-		parentKey         string
+		// map elements are not addressable: an element that the path descends into is worked on as an
+		// addressable copy, which is stored back into its map once the value has been assigned
+		writeBacks []mapWriteBack
 	)
+
+	flush := func() {
+		for i := len(writeBacks) - 1; i >= 0; i-- {
+			writeBacks[i].m.SetMapIndex(writeBacks[i].key, writeBacks[i].elem)
+		}
+	}
 
 	for {
 		path := toPaths[0]
@@ -271,9 +278,7 @@ func assignOne(destValue reflect.Value, taken any, to string) (reflect.Value, er
 					destValue.SetMapIndex(key, toSet)
 				}
 
-				if parentMap.IsValid() {
-					parentMap.SetMapIndex(reflect.ValueOf(parentKey), destValue)
-				}
+				flush()
 
 				return originalDestValue, nil
 			}
@@ -289,9 +294,7 @@ func assignOne(destValue reflect.Value, taken any, to string) (reflect.Value, er
 				field.Set(toSet)
 			}
 
-			if parentMap.IsValid() {
-				parentMap.SetMapIndex(reflect.ValueOf(parentKey), destValue)
-			}
+			flush()
 
 			return originalDestValue, nil
 		}
@@ -313,24 +316,20 @@ func assignOne(destValue reflect.Value, taken any, to string) (reflect.Value, er
 			}
 
 			keyValue := reflect.ValueOf(path)
-			valueValue := destValue.MapIndex(keyValue)
-			if !valueValue.IsValid() {
-				valueValue = newInstanceByType(destValue.Type().Elem())
-				destValue.SetMapIndex(keyValue, valueValue)
+			// work on an addressable copy of the element (a fresh instance if the key is not there yet)
+			valueValue := reflect.New(destValue.Type().Elem()).Elem()
+			if existing := destValue.MapIndex(keyValue); existing.IsValid() {
+				valueValue.Set(existing)
+			} else {
+				valueValue.Set(newInstanceByType(destValue.Type().Elem()))
 			}
 
-			if parentMap.IsValid() {
-				parentMap.SetMapIndex(reflect.ValueOf(parentKey), destValue)
-			}
-
-			parentMap = destValue
-			parentKey = path
+			writeBacks = append(writeBacks, mapWriteBack{m: destValue, key: keyValue, elem: valueValue})
 			destValue = valueValue
 
 			continue
 		}
 
-		ptrValue := destValue
 		for destValue.Kind() == reflect.Ptr {
 			destValue = destValue.Elem()
 		}
@@ -350,14 +349,12 @@ func assignOne(destValue reflect.Value, taken any, to string) (reflect.Value, er
 
 		instantiateIfNeeded(field)
 
-		if parentMap.IsValid() {
-			parentMap.SetMapIndex(reflect.ValueOf(parentKey), ptrValue)
-			parentMap = reflect.Value{}
-			parentKey = ""
-		}
-
 		destValue = field
 	}
+}
+
+type mapWriteBack struct {
+	m, key, elem reflect.Value
 }
 
 func instantiateIfNeeded(field reflect.Value) {
